@@ -169,6 +169,19 @@ CLAIMS = {
              "(O5) are not under contract yet.",
         note=PYVC_TRUST + "; asyncio.Future/Queue contracts assumed; Packet.append by its C11 contract; bounded in "
              "requests per frame for process_packet"),
+    "C10": dict(
+        engine="pyvc", category="other", design_ref="DESIGN.md section 4 C10",
+        technique="contract-based deductive verification: preconditions at call sites. The kernel ABI of the bpf() "
+                  "map commands is the contract of bpf.bpf (ghost pointers carry buffer lengths, ghost registry of "
+                  "map sizes); bpf._lookup_elem/update_elem/delete_elem/get_next_key/create_map are proved against "
+                  "buffer preconditions, and every caller in the package is proved to meet them",
+        text="For every file descriptor, count, buffer content and number of possible CPUs: each map lookup, update, "
+             "delete, lookup-and-delete and key iteration issued by HashGlobalVarDesc, HashMap.init, Dict.init, "
+             "TheDict (set/get/pop/del/iter), PerCPUReader.read and FastEtherCat.register_sync_group passes key and "
+             "value buffers at least as large as what the kernel transfers - except PerCPUReader.read, whose buffer "
+             "is sized by the online CPU count (recorded finding). Formats and Structure definitions enumerated.",
+        note=PYVC_TRUST + "; kernel ABI assumed; create_map arguments of PerCPUArrayMap/FastEtherCat.connect read "
+             "off the source as class invariants; one recorded finding (per-CPU buffer sized by online CPUs)"),
     "C15": dict(
         engine="pyvc", category="other", design_ref="DESIGN.md section 4 C15",
         technique="contract-based deductive verification: sidecar contracts on the real source of "
